@@ -12,6 +12,7 @@ class Ops:
         self.tenv = tenv
         self.ref_truthy = {}  # ref sort name -> predicate function name
         self.ref_order = {}  # ref sort name -> strict order function name (lt)
+        self.ref_coercions = {}  # (from sort/record name, to sort name) -> function name (injections between uninterpreted sorts)
 
     # ---------------- type of a run-time value
     def pt_of(self, v) -> PT:
@@ -84,6 +85,12 @@ class Ops:
             return smt.App(f"some_{s}", (inner,), s)
         if pt.kind == "ext" and want.kind == "int":
             return self.fin_v(t)
+        if pt.kind in ("ref", "rec") and want.kind == "ref" and (pt.name, want.name) in self.ref_coercions:
+            fn = self.ref_coercions[(pt.name, want.name)]
+            return self.ctx.app(fn, t)
+        if pt.kind == "opt" and want.kind == "ref" and pt.args[0].kind == "ref" and (pt.args[0] == want or (pt.args[0].name, want.name) in self.ref_coercions):
+            # Optional value used where the payload is needed (declared injections only): the payload of `some`
+            return self.coerce(self.opt_the(SV(t, pt)).term, pt.args[0], want)
         raise TypeMismatch(f"cannot coerce {pt} to {want} ({t})")
 
     def sv(self, v, want: PT = None) -> SV:
